@@ -13,7 +13,9 @@ LEVEL_NOTE = ("Coq theorem C14_holds, for every number of processes and every in
 TRUSTED = ["Coq 8.16.1 kernel; no axioms", "POSIX: bind on a listening address is exclusive; the listener is released when the process dies", "hooks: after_lock_* points (guarded)",
            "that each API's first action is the acquisition is what the tie checks (the model's op lists start with Start = bind)", "modelled, not verified: the Rust source"]
 RULE = ("rounds: holder API in {run, checkpoint update, checkpoint delete, out delete}, 2-6 contenders with random APIs and start offsets 0-300 ms, holder end in {exit, failing run, SIGKILL}; "
-        "plus orphan rounds (run killed by SIGKILL/SIGTERM while its command sleeps 2.5 s, next invocation at once), simultaneous-start rounds of 3-6 processes and brief-hold rounds (holder parked 300-800 ms, one contender with -v whose 'Acquiring lock' timestamp is compared with the tenure); non-trivial = every round (>=2 contenders); distinct by round parameters")
+        "plus orphan rounds (run killed by SIGKILL/SIGTERM while its command sleeps 2.5 s, next invocation at once), simultaneous-start rounds of 3-6 processes and brief-hold rounds (holder parked 300-800 ms, one contender with -v whose 'Acquiring lock' timestamp is compared with the tenure); "
+        "plus, on a lock host with two addresses (native, or `lockhost` = 127.0.0.1 + 127.0.0.2 in a private mount namespace with its own /etc/hosts): contenders against a parked holder, and partial-hold rounds "
+        "(a foreign listener on one of the addresses while A starts, gone when B starts: A and B never both past acquisition); non-trivial = every round (>=2 contenders); distinct by round parameters")
 
 CFG = {"targets": [{"path": "a"}, {"path": "b", "uses": ["a"]}], "sequences": {"all": ["build"]}}
 APIS = {"run": ["run", "-c", "build"], "checkpoint_update": ["checkpoint", "update"], "checkpoint_delete": ["checkpoint", "delete"], "out_delete": ["out", "delete", "--all"]}
